@@ -108,6 +108,7 @@ struct World {
     nested_kinds: u32,
     solo_target: Option<usize>,
     nested_cost: Vec<u64>,
+    completed: Vec<u64>,
 }
 
 static mut WORLD: *mut World = std::ptr::null_mut();
@@ -130,7 +131,7 @@ impl Drop for Tok {
         x.seq += 1;
         sim::log(UE_TOK_DROP, self.id as u64, t.drops as u64);
         if t.drops > 1 {
-            sim::report("C07", "value-dropped-twice", &format!("token #{} was dropped {} times", self.id, t.drops), true);
+            sim::report("C07", "value-dropped-twice", &format!("token #{} was dropped {} times", self.id, t.drops), false);
         }
         if x.chan_dropping {
             t.site = 3;
@@ -156,7 +157,8 @@ impl Drop for Tok {
         }
         if t.site == 4 {
             let d = t.foreign_desc.clone();
-            sim::report("C07", "value-destroyed-by-foreign-operation", &format!("token #{} was destroyed inside a foreign operation: {}", self.id, d), true);
+            sim::report("C07", "value-destroyed-by-foreign-operation", &format!("token #{} was destroyed inside a foreign operation: {}", self.id, d), false);
+            sim::report("C06", "value-lost", &format!("token #{} was sent (not discarded by its own send) but can never be received: it was destroyed inside a foreign operation: {}", self.id, d), false);
         }
     }
 }
@@ -188,6 +190,9 @@ fn op_end(id: usize, result: Option<Option<usize>>) {
         o.kind = OpK::Recv(r);
     }
     x.opstack[me].pop();
+    if x.opstack[me].is_empty() {
+        x.completed[me] += 1;
+    }
 }
 
 /// One send with all per-operation oracles.
@@ -448,6 +453,9 @@ fn finish(nontrivial: bool) -> ! {
     let x = w();
     x.chan_dropping = false;
     for (i, t) in x.toks.iter().enumerate() {
+        if t.drops == 0 && t.site == 0 {
+            sim::report("C06", "value-lost", &format!("token #{} was sent but was neither received, discarded by its send, nor found in the channel at the end", i), false);
+        }
         if t.drops != 1 {
             sim::report("C07", "value-not-dropped-exactly-once", &format!("token #{} was dropped {} times by the end of the run (channel dropped)", i, t.drops), true);
         }
@@ -502,6 +510,7 @@ pub fn run(spec: &RunSpec) -> ! {
         nested_kinds: 1,
         solo_target: None,
         nested_cost: vec![0; sim::MAX_THREADS],
+        completed: vec![0; sim::MAX_THREADS],
     });
     unsafe { WORLD = Box::into_raw(world) };
     let sh = sighook_shim::shm::get();
@@ -563,6 +572,7 @@ pub fn run(spec: &RunSpec) -> ! {
         // operation; it must complete on its own; then thaw.
         let mut state = 0u8;
         let mut own_at = 0u64;
+        let mut done_at = 0u64;
         sim::set_step_hook(Box::new(move || {
             let x = w();
             match state {
@@ -573,13 +583,14 @@ pub fn run(spec: &RunSpec) -> ! {
                             sim::freeze_all_but(t);
                             x.solo_target = Some(t);
                             own_at = sim::thread_own_steps(t);
+                            done_at = x.completed[t];
                             state = 1;
                         }
                     }
                 }
                 1 => {
                     let t = x.solo_target.unwrap();
-                    if x.opstack[t].is_empty() {
+                    if x.opstack[t].is_empty() || x.completed[t] > done_at {
                         sim::count(E_SOLO_COMPLETIONS, 1);
                         sim::thaw_all();
                         state = 2;
